@@ -338,10 +338,10 @@ fn change_of(rep: &Reporter) {
 // ---- random chance ------------------------------------------------------------------------------------
 fn random_chance(rep: &Reporter) {
     let p = problem();
-    let n = rep.tier.pick(40_000u32, 400_000u32);
+    let n = rep.tier.pick(40_000u32, 2_000_000u32);
     let eps = ((2.0f64 / 1e-10).ln() / (2.0 * n as f64)).sqrt();
     for &pr in &[0.0f64, 0.1, 0.5, 0.9, 1.0] {
-        for seed in 0..rep.tier.pick(2u64, 8u64) {
+        for seed in 0..rep.tier.pick(2u64, 16u64) {
             rep.case();
             rep.nontrivial(hash_of(&("chance", pr.to_bits(), seed)));
             let c = RandomChance::new::<P>(pr);
@@ -469,7 +469,7 @@ fn logical(rep: &Reporter) {
     let mut formulas = f2.clone();
     // depth 3: sampled combinations of depth-2 formulas
     let mut rng = SplitMix64::new(rep.seed).fork(0xC10_3);
-    for _ in 0..rep.tier.pick(3_000, 100_000) {
+    for _ in 0..rep.tier.pick(3_000, 2_000_000) {
         let a = rng.pick(&f2).clone();
         let b = rng.pick(&f2).clone();
         formulas.push(match rng.below(3) {
